@@ -6,6 +6,7 @@ import (
 	"fmt"
 	"reflect"
 	"strconv"
+	"strings"
 
 	"goa.design/goa/v3/codegen"
 	"goa.design/goa/v3/expr"
@@ -701,6 +702,12 @@ func initAttributeValidation(s *Schema, at *expr.AttributeExpr) {
 			s.MaxLength = val.MaxLength
 		}
 	}
+	if at.Type == expr.Bytes && (s.MinLength != nil || s.MaxLength != nil) {
+		// The length of a Bytes attribute is a number of bytes, minLength
+		// and maxLength would count the characters of the base64 text.
+		s.Pattern = Base64LengthPattern(s.MinLength, s.MaxLength)
+		s.MinLength, s.MaxLength = nil, nil
+	}
 	for _, v := range val.Required {
 		if a := at.Find(v); a != nil {
 			if !MustGenerate(a.Meta) {
@@ -709,6 +716,37 @@ func initAttributeValidation(s *Schema, at *expr.AttributeExpr) {
 		}
 		s.Required = append(s.Required, v)
 	}
+}
+
+// Base64LengthPattern returns the regular expression matched by the base64
+// encodings (standard alphabet, padded: what encoding/json produces and accepts
+// for []byte) of the values whose length in bytes is between min and max. A nil
+// bound is open. The length validations of a Bytes attribute count bytes while
+// minLength and maxLength would count the characters of the encoded text.
+func Base64LengthPattern(min, max *int) string {
+	const c = "[A-Za-z0-9+/]"
+	var alts []string
+	for r, tail := range []string{"", c + "{2}==", c + "{3}="} {
+		// values of 3*q+r bytes are encoded as q groups of 4 characters
+		// followed by tail
+		lo := 0
+		if min != nil && *min > r {
+			lo = (*min - r + 2) / 3
+		}
+		quant := fmt.Sprintf("{%d,}", lo)
+		if max != nil {
+			if *max < r {
+				continue
+			}
+			hi := (*max - r) / 3
+			if hi < lo {
+				continue
+			}
+			quant = fmt.Sprintf("{%d,%d}", lo, hi)
+		}
+		alts = append(alts, "(?:"+c+"{4})"+quant+tail)
+	}
+	return "^(?:" + strings.Join(alts, "|") + ")$"
 }
 
 // toSchemaHrefs produces hrefs that replace the path wildcards with JSON
